@@ -2,6 +2,7 @@
    Statements only. *)
 From Coq Require Import List NArith ZArith.
 From IonV Require Import Base.Wire Bin.Bits Data.Ion Bin.BinWriter Bin.BinWriterP.
+From IonV Require Export Props.C04bin Props.C12text.
 Import ListNotations.
 Open Scope N_scope.
 
